@@ -4,7 +4,7 @@ Explicit-state exploration of request histories on the REAL ResourceManager / ve
 a reference allocator (granted set + pin->owner map, vf/ref/c19_alloc.py). The implementation's allocation is
 observed only through the behaviour of later requests. Families (each enumerated completely inside its bounds):
   S  structures: all tables of <=3 resources over 7 shapes x injective pin tuples from a pool of 4 pins
-     (modulo pin renaming / resource-list order; quick: 3-resource tables over P1/G11 only), every request history
+     (modulo pin renaming / resource-list order; quick: pairs over 5 shapes, triples over P1/G11), every request history
      of length 3 over 4 actions per resource + a missing resource (thorough: also length 4 on the 1- and 2-resource tables)
   D1 decorations: one resource x (shape, pin order, dir, inversion, attrs, clock, connector depth 0..3/mixed)
      + one probe resource per pin; all histories of length 2 (3 thorough)
@@ -480,7 +480,7 @@ def families(rep):
     q = rep.quick
     fam = {}
     s1 = G.structures(1, G.SHAPES)
-    s2 = G.structures(2, G.SHAPES)
+    s2 = G.structures(2, G.SHAPES[:5] if q else G.SHAPES)      # quick: pairs over P1/P2/D1/G11/G12
     s3small = G.structures(3, ["P1", "G11"])
     if q:
         s3 = s3small
@@ -497,11 +497,11 @@ def families(rep):
     fam["X"] = (G.x_tables(), 3)
     # end to end: 1-/2-resource structures and the 3-resource ones over P1/G11 (every permutation of every subset of
     # the resources), plus decoration tables (clocks / attrs / connector depth / inversion; permutations of <=2 of
-    # r and its probes). The quick tier takes every 8th / 300th table of these lists (fixed stride, no randomness).
+    # r and its probes). The quick tier takes every 12th / 450th table of these lists (fixed stride, no randomness).
     e_structs = s1 + s2 + s3small
     e_tables = [(G.s_table(s, i + 1), 3) for i, s in enumerate(e_structs)]
     e_d1 = [(t, 2) for t in d1]
-    fam["E"] = (e_tables[::8] + e_d1[::300] if q else e_tables + e_d1[::20], None)
+    fam["E"] = (e_tables[::12] + e_d1[::450] if q else e_tables + e_d1[::40], None)
     return fam
 
 
@@ -551,8 +551,8 @@ def run(rep):
     rep.setcov("flags_seen", sorted(allflags))
     rep.setcov("exhaustive", True)
     rep.setcov("exhaustive_note", "history families S/D1/D2/X: complete inside the bounds below in both tiers; E: complete set of "
-               "request permutations per table; the E table list is the full structure list + every 20th decoration table "
-               "(thorough) or every 8th / 300th entry of those lists (quick), a fixed stride, never random")
+               "request permutations per table; the E table list is the full structure list + every 40th decoration table "
+               "(thorough) or every 12th / 450th entry of those lists (quick), a fixed stride, never random")
     rep.setcov("rule", "every request history of the stated length over the action alphabet of every table of the families "
                "S (<=3 resources over 7 shapes x injective pin tuples from 4 pins, modulo pin renaming), D1 (all decorations of one "
                "resource + probes), D2 (all dir x xdr overrides), X (dangling connector pins) is executed on a fresh real "
